@@ -15,13 +15,13 @@ def verify(d, wt):
     env = dict(os.environ, PYTHONPATH=wt, MPLBACKEND="Agg", PYTHONDONTWRITEBYTECODE="1")
     res = {"variant": d}
     sh("git checkout -q -- . && git clean -fdq", cwd=wt)
-    rc0, out0 = sh("%s %s/equiv.py" % (PY, d), cwd=wt, env=env)
+    rc0, out0 = sh("%s %s/equiv.py 2>/dev/null" % (PY, d), cwd=wt, env=env)          # stdout only: warnings carry line numbers
     rc, out = sh("git apply %s/patch.diff" % d, cwd=wt)
     res["apply_rc"] = rc
     if rc != 0:
         res["apply_out"] = out[-300:]
         return res
-    rc1, out1 = sh("%s %s/equiv.py" % (PY, d), cwd=wt, env=env)
+    rc1, out1 = sh("%s %s/equiv.py 2>/dev/null" % (PY, d), cwd=wt, env=env)
     res["equiv_rc"] = (rc0, rc1)
     res["digest_equal"] = (rc0 == 0 and rc1 == 0 and out0 == out1)
     res["digest"] = hashlib.sha256(out0.encode()).hexdigest()[:16]
